@@ -977,6 +977,15 @@ def add_padding_fields(op, arch, nng):
                     output_shape.height // input_shape.height,
                     output_shape.width // input_shape.width,
                 )
+            elif op.type == Op.Conv2DBackpropInputSwitchedBias:
+                # Transpose without upscale (stride 1x1): a convolution with the reversed kernel, padded with what
+                # is left of the full padding after the padding of the corresponding forward convolution
+                (top, left, bottom, right), _ = calc_padding_and_skirt(
+                    op.attrs["padding"], op.kernel, output_shape, None
+                )
+                k_h, k_w = int(kernel_size[0]), int(kernel_size[1])
+                padding = (k_h - 1 - top, k_w - 1 - left, k_h - 1 - bottom, k_w - 1 - right)
+                skirt = padding
             else:
                 padding, skirt = calc_padding_and_skirt(
                     op.attrs["padding"],
